@@ -92,11 +92,17 @@ class BuckGophermapHandler(BaseHandler):
                         # it in for gopher+.
                         # ...but only for a selector a client could request
                         # too: a link that climbs out of the root (".." and
-                        # the like) must not make us look at its target.
+                        # the like) must not make us look at its target, and
+                        # neither must one without a leading slash (a "URL:"
+                        # link): root + selector would name a sibling of the root.
                         target = BaseHandler(
                             selector, "", self.protocol, self.config, None, self.vfs
                         )
-                        if target.isrequestsecure() and self.vfs.exists(selector):
+                        if (
+                            selector.startswith("/")
+                            and target.isrequestsecure()
+                            and self.vfs.exists(selector)
+                        ):
                             entry.populatefromvfs(self.vfs, selector)
                     self.entries.append(entry)
                 else:  # Info line
